@@ -244,8 +244,10 @@ def _fcfg_part(case, out, ref, lang, words, members, validated):
         try:
             t = f.get_parse_tree(G.word_values(case, w))
         except NotParsableException:
-            continue             # verdicts are C18's business
+            continue             # which words are refused is C18's business
         except Exception as e:
+            # parsers refuse with their documented exception, never another failure
+            out.fail("FCFG.get_parse_tree:exception:" + type(e).__name__, word=list(w), msg=str(e)[:100])
             continue
         # every tree handed out must be a real derivation of w -- also when w is not a member (then it cannot be)
         if _check_tree(out, "FCFG.get_parse_tree", t, ref, w, ref.start):
